@@ -333,6 +333,10 @@ fn parse_helper(pat: &mut &str, result: &mut Vec<Atom>) -> Result<(), PatError> 
 			b'*' => result.push(Atom::Ptr),
 			// Start recursive operator
 			b'{' => {
+				// 'Limited' recursion depth
+				if depth >= u8::max_value() {
+					return Err(PatError::StackError);
+				}
 				depth += 1;
 				// Must follow a jump operator and insert push before the jump
 				let atom = match result.last_mut() {
